@@ -477,10 +477,43 @@ def _len_checked(f: FuncInfo, node: ast.AST, seq: ast.AST) -> bool:
     def is_len(e: ast.AST) -> bool:
         return isinstance(e, ast.Call) and (dotted(e.func) or "") == "len" and bool(e.args) and unparse(e.args[0]) == stx
 
+    # a constant index k needs len(seq) > k (k >= 0) or len(seq) >= -k (k < 0): a test that compares the length with a constant
+    # must guarantee at least that much
+    need = None
+    if isinstance(node, ast.Subscript) and unparse(node.value) == stx:
+        sl = node.slice
+        if isinstance(sl, ast.Constant) and type(sl.value) is int:
+            need = sl.value + 1 if sl.value >= 0 else -sl.value
+        elif isinstance(sl, ast.UnaryOp) and isinstance(sl.op, ast.USub) and isinstance(sl.operand, ast.Constant) and type(sl.operand.value) is int:
+            need = sl.operand.value
+
+    def bound_from(c: ast.Compare, sense: str):
+        """Lower bound on len(seq) that the comparison guarantees where node runs (None: not of that shape)."""
+        l_, r_ = c.left, c.comparators[0]
+        if is_len(l_) and isinstance(r_, ast.Constant) and type(r_.value) is int:
+            op, k, len_left = type(c.ops[0]), r_.value, True
+        elif is_len(r_) and isinstance(l_, ast.Constant) and type(l_.value) is int:
+            op, k, len_left = type(c.ops[0]), l_.value, False
+        else:
+            return None
+        if not len_left:  # k OP len  ->  len OP' k
+            op = {ast.Lt: ast.Gt, ast.LtE: ast.GtE, ast.Gt: ast.Lt, ast.GtE: ast.LtE}.get(op, op)
+        if sense == "in":
+            return {ast.GtE: k, ast.Gt: k + 1, ast.Eq: k}.get(op)
+        if sense == "out":  # the comparison was false where node runs
+            return {ast.Lt: k, ast.LtE: k + 1, ast.NotEq: k}.get(op)
+        return None
+
     def has(t: ast.AST, sense: str = "any") -> bool:
         """sense: 'in' - t holds where node runs; 'out' - t led to an exit (its negation holds); 'any' - not an index test."""
         found = False
         for c in [t] + list(ast.walk(t)):
+            if need is not None and isinstance(c, ast.Compare) and len(c.ops) == 1 and sense in ("in", "out"):
+                b = bound_from(c, sense)
+                if b is not None:
+                    if b >= need:
+                        return True
+                    return False  # the length is tested, but the test does not reach this index
             if isinstance(c, ast.Compare) and len(c.ops) == 1 and idx_txt is not None:
                 l_, r_ = c.left, c.comparators[0]
                 if (is_len(l_) and unparse(r_) == idx_txt) or (is_len(r_) and unparse(l_) == idx_txt):
